@@ -31,7 +31,8 @@ RULE = ("(a) order: every ordered unit pair (ua,ub) of a seeded set of quantity 
         "temperature and pressure, i.e. affine and gauge units), Scalar and FractionScalar, b's amount physically equal "
         "to / 1e-9 beside / far from a's, all six operators, plus cross-type pairs (TypeError); (b) equality: ALL ordered "
         "pairs of a pool with >=3 objects of every class (simple, derived, empty and unknown quantities; list/tuple/ndarray "
-        "containers of equal and different lengths; FixedArray vs Array; Curve; UnitSystem; Fraction/FractionValue) plus "
+        "containers of equal and different lengths; FixedArray vs Array; Curve; UnitSystem; Fraction/FractionValue; "
+        "quantities and value objects whose quantity carries a caption absent / 'x' / 'y' on a KNOWN unit, simple and derived) plus "
         "None, str, int, float, tuple, list: ==, !=, hash; (c) Fraction <,<=,>,>= against Fractions, numbers and builtins on "
         "both sides, and Fraction(number).  distinct = distinct model line; non-trivial = two different objects at least "
         "one of which is a barril object / two different units with a successful comparison")
@@ -197,7 +198,23 @@ def build_pool(db, seed, wide):
     q_list = Quantity(OrderedDict([("length", ["m", 1]), ("time", ["s", -2])]), None)
     q_tuple = Quantity(OrderedDict([("length", ("m", 1)), ("time", ("s", -2))]), None)
     q_single = Quantity(OrderedDict([("length", ["m", 1])]), None)
-    pool = [
+    # a caption on a KNOWN unit (absent / 'x' / 'y'), simple and derived: `==` and `hash` must treat it alike
+    m_x, m_y = ObtainQuantity("m", "length", "x"), ObtainQuantity("m", "length", "y")
+    m_x_direct = Quantity("length", "m", "x")  # the constructor, not the cache
+    degc_x = ObtainQuantity("degC", "temperature", "x")
+    acc = OrderedDict([("length", ["m", 1]), ("time", ["s", -2])])
+    acc_plain = Quantity.CreateDerived(acc)
+    acc_x = Quantity.CreateDerived(acc, unknown_unit_caption="x")
+    acc_y = Quantity.CreateDerived(acc, unknown_unit_caption="y")
+    captioned = [m_x, m_y, m_x_direct, degc_x, acc_plain, acc_x, acc_y]
+    for q in (m_x, m_y, acc_plain, acc_x, acc_y):
+        captioned += [Scalar(q, 1.0), Scalar(q, 0.0)]
+    captioned += [Scalar(degc_x, 2.5), Scalar(m_x_direct, 1.0)]
+    for q in (m_x, m_y, acc_x):
+        captioned += [Array(q, [1.0, 2.0]), FixedArray(2, q, [1.0, 2.0]), FractionScalar(q, FractionValue(1, (1, 2)))]
+    captioned += [Array(acc_plain, [1.0, 2.0]), FixedArray(2, acc_plain, [1.0, 2.0]),
+                  Curve(Array(m_x, [1.0, 2.0]), Array([0.0, 1.0], "s"))]
+    pool = captioned + [
         # Quantity
         ObtainQuantity("m"), ObtainQuantity("m", "depth"), ObtainQuantity("cm"), m_s, m_per_s, empty, unk,
         GetUnknownQuantity("bar"), GetUnknownQuantity(), q_list, q_tuple, q_single, ObtainQuantity("degC"),
